@@ -13,11 +13,7 @@ import (
 )
 
 // Field describes one field the encoder wrote; used by structure-aware mutators.
-type Field struct {
-	Off   int    `json:"off"`
-	Width int    `json:"w"`
-	Kind  string `json:"kind"`
-}
+type Field = model.Field
 
 // Field kinds
 const (
@@ -78,7 +74,7 @@ type Enc struct {
 	PayloadOffsets []int
 }
 
-func (e *Enc) mark(off, w int, kind string) { e.Fields = append(e.Fields, Field{off, w, kind}) }
+func (e *Enc) mark(off, w int, kind string) { e.Fields = append(e.Fields, Field{Off: off, Width: w, Kind: kind}) }
 
 func (e *Enc) u8(v uint8, kind string) {
 	e.mark(len(e.b), 1, kind)
